@@ -527,12 +527,14 @@ VF_EXPORT void vf_g2_prepare(void* o, const void* g2a) { ((G2Prepared*) o)->prep
 // preps: np G2Prepared images. dirty: fill the private per-pair state with junk first.
 // rounds > 1 re-uses the same arrays for consecutive calls; every round's result is written
 // to o[round]. use_cpp: call pairing_product / miller_loop+final_exponentiation instead of the C symbol.
-VF_EXPORT void vf_pairing_sum(void* o, size_t na, const void* g1s, const void* g2s, size_t np, const void* preps, int dirty, int rounds) {
+static long vf_pairing_sum_impl(void* o, size_t na, void* g1s, void* g2s, size_t np, void* preps, int dirty, int rounds,
+                                const void* g1s2, const void* g2s2, const void* preps2) {
     embedded_pairing_bls12_381_affine_pair_t* ap = na ? (embedded_pairing_bls12_381_affine_pair_t*) malloc(na * sizeof(*ap)) : nullptr;
     embedded_pairing_bls12_381_prepared_pair_t* pp = np ? (embedded_pairing_bls12_381_prepared_pair_t*) malloc(np * sizeof(*pp)) : nullptr;
-    const G1Affine* g1 = (const G1Affine*) g1s;
-    const G2Affine* g2 = (const G2Affine*) g2s;
-    const G2Prepared* pr = (const G2Prepared*) preps;
+    G1Affine* g1 = (G1Affine*) g1s;
+    G2Affine* g2 = (G2Affine*) g2s;
+    G2Prepared* pr = (G2Prepared*) preps;
+    long rv = 0;
     if (dirty) {
         if (ap) memset(ap, 0xA5, na * sizeof(*ap));
         if (pp) memset(pp, 0xA5, np * sizeof(*pp));
@@ -547,14 +549,36 @@ VF_EXPORT void vf_pairing_sum(void* o, size_t na, const void* g1s, const void* g
     }
     for (int r = 0; r != rounds; r++) {
         Fq12* out = ((Fq12*) o) + r;
+        if (r != 0 && g1s2 != nullptr) {
+            // the caller keeps its pair records and only changes the points they refer to
+            memcpy(g1, g1s2, (na + np) * sizeof(G1Affine));
+            if (na) memcpy(g2, g2s2, na * sizeof(G2Affine));
+            if (np) memcpy(pr, preps2, np * sizeof(G2Prepared));
+        }
         if (vf_use_cpp) {
             pairing_product(*out, (AffinePair*) ap, na, (PreparedPair*) pp, np);
         } else {
             embedded_pairing_bls12_381_pairing_sum((embedded_pairing_bls12_381_fq12_t*) out, ap, na, pp, np);
         }
+        // the public fields of the caller's records are inputs
+        for (size_t i = 0; i != na; i++) {
+            if (ap[i].g1 != (embedded_pairing_bls12_381_g1affine_t*) &g1[i] || ap[i].g2 != (embedded_pairing_bls12_381_g2affine_t*) &g2[i]) rv |= 1;
+        }
+        for (size_t i = 0; i != np; i++) {
+            if (pp[i].g1 != (embedded_pairing_bls12_381_g1affine_t*) &g1[na + i] || pp[i].g2 != (embedded_pairing_bls12_381_g2prepared_t*) &pr[i]) rv |= 2;
+        }
     }
     free(ap);
     free(pp);
+    return rv;
+}
+VF_EXPORT long vf_pairing_sum(void* o, size_t na, const void* g1s, const void* g2s, size_t np, const void* preps, int dirty, int rounds) {
+    return vf_pairing_sum_impl(o, na, (void*) g1s, (void*) g2s, np, (void*) preps, dirty, rounds, nullptr, nullptr, nullptr);
+}
+// second and later rounds run on other points written over the same storage (records untouched)
+VF_EXPORT long vf_pairing_sum2(void* o, size_t na, void* g1s, void* g2s, size_t np, void* preps, int dirty, int rounds,
+                               const void* g1s2, const void* g2s2, const void* preps2) {
+    return vf_pairing_sum_impl(o, na, g1s, g2s, np, preps, dirty, rounds, g1s2, g2s2, preps2);
 }
 
 // ---------------------------------------------------------------------------------------
